@@ -6,7 +6,7 @@ import subprocess
 VERIF = os.path.dirname(os.path.dirname(os.path.abspath(__file__)))
 
 
-def write(pid, spec, results, tier, seed, wall, nviol, other, known_hits, undecided):
+def write(pid, spec, results, tier, seed, wall, nviol, other, known_hits, undecided, scratch=False, belongs=None):
     obligations = []
     functions = []
     trusted = []
@@ -25,6 +25,9 @@ def write(pid, spec, results, tier, seed, wall, nviol, other, known_hits, undeci
             functions.append('%s %s (%s:%d) [%s/%s]' % (e['kind'], e['item'], e['file'], e['line'], r['unit'], r['backend']))
         if r['backend'] == 'verus':
             for o in r.get('obligations', []):
+                # only the functions this property's claim rests on (checks.json `functions` patterns)
+                if belongs and not belongs({'function': o['function']}, r.get('serves', ['*'])):
+                    continue
                 obligations.append({'name': '%s::%s' % (r['unit'], o['function']), 'backend': 'verus/z3', 'ok': o['ok'],
                                     'mode': o.get('mode'), 'solver_us': o.get('time_us')})
         else:
@@ -81,12 +84,14 @@ def write(pid, spec, results, tier, seed, wall, nviol, other, known_hits, undeci
         'wall_s': round(wall, 2),
         'violations': nviol,
     }
-    os.makedirs(os.path.join(VERIF, 'evidence'), exist_ok=True)
-    path = os.path.join(VERIF, 'evidence', pid + '.json')
+    # runs against a scratch tree (mutants, seeded changes) never touch the committed evidence
+    edir = os.path.join(VERIF, 'build', 'evidence-scratch') if scratch else os.path.join(VERIF, 'evidence')
+    os.makedirs(edir, exist_ok=True)
+    path = os.path.join(edir, pid + '.json')
     with open(path, 'w') as f:
         json.dump(ev, f, indent=1)
     validate(path)
-    return path
+    return path, n, ok
 
 
 def validate(path):
